@@ -372,7 +372,7 @@ func genCLISign(r *hlib.Rand, n int, emit func(string, ...any)) {
 				ver = 0
 			}
 			secs := ca.f.NotAfter.Unix() - int64(cl.Epoch)
-			dur := hlib.Pick[int64](r, 0, 0, 0, 1, 999999999, 1000000000, 1500000000, 60e9, (secs-1)*1e9, secs*1e9, secs*1e9-1, secs*1e9+1, (secs+1)*1e9, 2*secs*1e9, -5e9)
+			dur := hlib.Pick[int64](r, 0, 0, 0, 0, 1, 999999999, 1000000000, 1500000000, 1e9, 2e9, (secs/2)*1e9, (secs/2)*1e9+500000000, (secs-1)*1e9, secs*1e9, secs*1e9-1, secs*1e9+1, (secs+1)*1e9, 2*secs*1e9, -5e9)
 			var extraN, extraU []string
 			crt, key, inpub, outkey := ca.crt, ca.key, []byte(nil), "1"
 			name := lf.Name
@@ -426,6 +426,28 @@ func genCLISign(r *hlib.Rand, n int, emit func(string, ...any)) {
 				lf.Networks = append(lf.Networks, netip.MustParsePrefix(hlib.Pick(r, "fd00:1::5/64", "0.0.0.0/8", "::/0")))
 			case 18:
 				groups = hlib.Pick(r, ",", " , ,", "a,,b", " a ,\tb\t", "zz", "a\v,b\f", "a b", ",a")
+			case 19, 20:
+				// version 1 asked for (or inherited) with IPv6 material: must be refused, not silently trimmed
+				if ca.f.Version == 1 {
+					ver = hlib.Pick(r, 0, 1)
+				} else {
+					ver = 1
+				}
+				lf.Networks = lf.Networks[:1]
+				if lf.Networks[0].Addr().Is6() {
+					lf.Networks = []netip.Prefix{netip.MustParsePrefix("10.0.0.7/24")}
+				}
+				lf.Unsafe = nil
+				if r.Bool() {
+					extraN = []string{hlib.Pick(r, "fd00::1/64", "2001:db8::5/32", "::ffff:10.1.2.3/120")}
+				} else {
+					extraU = []string{hlib.Pick(r, "fd00:9::/64", "2001:db8::/32")}
+				}
+			case 21:
+				ver = 1 // several IPv4 networks, or none at all, under version 1
+				lf.Networks = hlib.Pick(r, []netip.Prefix{netip.MustParsePrefix("10.0.0.7/24"), netip.MustParsePrefix("10.0.0.8/24")}, []netip.Prefix{netip.MustParsePrefix("fd00::1/64")})
+			case 22:
+				name = ""
 			}
 			nflag := netsFlag(lf.Networks, extraN...)
 			uflag := netsFlag(lf.Unsafe, extraU...)
